@@ -109,6 +109,15 @@ def groupsText : List Nat → List UInt8
   | [g] => hexText g
   | g :: gs => hexText g ++ 58 :: groupsText gs
 
+/-- a dotted quad -/
+def quadText (a b c d : Nat) : List UInt8 := decimal a ++ 46 :: (decimal b ++ 46 :: (decimal c ++ 46 :: decimal d))
+
+/-- groups, a colon, and a dotted quad (just the quad if there are no groups) -/
+def groupsThenQuad (gs : List Nat) (Q : List UInt8) : List UInt8 :=
+  match gs with
+  | [] => Q
+  | _ :: _ => groupsText gs ++ 58 :: Q
+
 /-- the labels in wire form, without the root label -/
 def wireLabels (ls : List (List UInt8)) : List UInt8 := ls.flatMap fun l => UInt8.ofNat l.length :: l
 
@@ -276,6 +285,7 @@ inductive PRdata where
   | aaaa (groups : List Nat)                                   -- IN AAAA: eight 16-bit groups, written in full
   | chA (n : PName) (addr : Nat)                               -- CH A: network name and octal address
   | aaaaC (hd tl : List Nat)                                   -- IN AAAA with `::` for the zero groups between `hd` and `tl`
+  | aaaaV4 (hd : List Nat) (tl : Option (List Nat)) (a b c d : Nat)  -- IN AAAA ending in a dotted quad; `tl = some _`: with `::`
   deriving Repr, Inhabited
 
 def u16Wire (n : Nat) : List UInt8 := [UInt8.ofNat (n / 256 % 256), UInt8.ofNat (n % 256)]
@@ -298,6 +308,7 @@ def kindOK (cls ty : Nat) : PRdata → Bool
   | .aaaa .. => cls == 1 && ty == 28
   | .chA .. => cls == 3 && ty == 1
   | .aaaaC .. => cls == 1 && ty == 28
+  | .aaaaV4 .. => cls == 1 && ty == 28
 
 /-- the second and later strings of TXT, each after its gap -/
 def txtRest (G : Nat → PGap) : Nat → List PString → List UInt8
@@ -323,6 +334,8 @@ def rdataText (G : Nat → PGap) : PRdata → List UInt8
   | .aaaa gs => groupsText gs
   | .chA n a => nameText n ++ (gapText (G 0) ++ octalText a)
   | .aaaaC hd tl => groupsText hd ++ (58 :: 58 :: groupsText tl)
+  | .aaaaV4 hd none a b c d => groupsThenQuad hd (quadText a b c d)
+  | .aaaaV4 hd (some tl) a b c d => groupsText hd ++ (58 :: 58 :: groupsThenQuad tl (quadText a b c d))
 
 /-- number of gaps inside the RDATA -/
 def rdataGaps : PRdata → Nat
@@ -338,6 +351,7 @@ def rdataGaps : PRdata → Nat
   | .aaaa .. => 0
   | .chA .. => 1
   | .aaaaC .. => 0
+  | .aaaaV4 .. => 0
 
 def txtLines (G : Nat → PGap) : Nat → List PString → Nat
   | _, [] => 0
@@ -359,6 +373,7 @@ def rdataLines (G : Nat → PGap) : PRdata → Nat
   | .aaaa .. => 0
   | .chA n _ => nameLines n + gapLines (G 0)
   | .aaaaC .. => 0
+  | .aaaaV4 .. => 0
 
 /-- the RDATA denoted (RFC 1035 §3.3, RFC 2782 wire formats); `none` if a name cannot be completed -/
 def rdataWire (origin : Option (List UInt8)) : PRdata → Option (List UInt8)
@@ -380,6 +395,11 @@ def rdataWire (origin : Option (List UInt8)) : PRdata → Option (List UInt8)
   | .aaaa gs => some (gs.flatMap u16Wire)
   | .chA n a => (nameWire origin n).map fun w => w ++ u16Wire a
   | .aaaaC hd tl => some ((hd ++ List.replicate (8 - hd.length - tl.length) 0 ++ tl).flatMap u16Wire)
+  | .aaaaV4 hd none a b c d =>
+    some (hd.flatMap u16Wire ++ [UInt8.ofNat a, UInt8.ofNat b, UInt8.ofNat c, UInt8.ofNat d])
+  | .aaaaV4 hd (some tl) a b c d =>
+    some ((hd ++ List.replicate (8 - hd.length - (tl.length + 2)) 0 ++ tl).flatMap u16Wire ++
+      [UInt8.ofNat a, UInt8.ofNat b, UInt8.ofNat c, UInt8.ofNat d])
 
 /-! ### records and files — the presentation subset of `C23_records_partial`
 
@@ -391,11 +411,11 @@ def rdataWire (origin : Option (List UInt8)) : PRdata → Option (List UInt8)
   before).  TTL and class written (decimal; mnemonic in any case or `CLASSnnn`; in either order)
   or omitted.  Type: mnemonic in any case or `TYPEnnn`.  RDATA: the RFC 3597 form `\# len hex`
   for any class and type, or the typed syntax of A, NS/MD/MF/CNAME/MB/MG/MR/PTR, MX, SOA, MINFO,
-  SRV, TXT, HINFO, AAAA (in full or with `::`), Chaosnet A (names relative / absolute / `@`; character-strings quoted or unquoted with
+  SRV, TXT, HINFO, AAAA (in full, with `::`, with a dotted-quad suffix), Chaosnet A (names relative / absolute / `@`; character-strings quoted or unquoted with
   escapes).  Directives: `$ORIGIN <absolute name>`, `$TTL <decimal>`,
   `$INCLUDE <path> [<origin>]`.  Blank and comment-only
   lines.  The last line may end with the file instead
-  of a line end.  Not in this subset (see C23.lean): IPv4-suffixed AAAA and the typed syntax of WKS. -/
+  of a line end.  Not in this subset (see C23.lean): the typed syntax of WKS. -/
 
 inductive POwner where
   | same
